@@ -20,7 +20,7 @@ namespace vd
         std::vector<bool> done, arrived, spinning;
         std::vector<const char*> tag;
         std::vector<int> prefix; size_t pos = 0;
-        struct pt { std::vector<int> enabled; int chosen; int prev; bool prev_enabled; bool forced; };
+        struct pt { std::vector<int> enabled; int chosen; int prev; bool prev_enabled; bool forced; const char* at = ""; };
         std::vector<pt> points;
         int only_spinners = 0;
         bool divergence = false;
@@ -50,7 +50,7 @@ namespace vd
             int c = 0;
             if (pos < prefix.size()) { c = prefix[pos]; if (c >= (int)en.size()) { divergence = true; c = 0; } }
             pos++;
-            points.push_back({ en, c, prev, prev_enabled, !prev_may_continue });
+            points.push_back({ en, c, prev, prev_enabled, !prev_may_continue, prev >= 0 ? tag[prev] : "go" });
             running = en[c];
             cv.notify_all();
         }
@@ -92,12 +92,13 @@ namespace vd
     static std::atomic<int> g_inside{ 0 };
     static std::atomic<int> g_max_inside{ 0 };
     static std::atomic<long> g_instr{ 0 };
+    static thread_local bool t_evaluating = false;
     static void hook_point(const char* t) { if (S && sched::me >= 0) S->point(t); }
     static void hook_event(verif::event k, runtime& rt)
     {
         if (k == verif::event::guard_enter) { int v = ++g_inside; int m = g_max_inside.load(); while (v > m && !g_max_inside.compare_exchange_weak(m, v)) {} }
         else if (k == verif::event::guard_leave) --g_inside;
-        else if (k == verif::event::instruction_executed) ++g_instr;
+        else if (k == verif::event::instruction_executed) { if (!t_evaluating) ++g_instr; }   // instructions of the evaluated expression are not the script's
     }
 
     static runtime::action act_of(const std::string& s)
@@ -166,7 +167,9 @@ namespace vd
                 if (rs->ctl[i] == "eval")
                 {
                     bool ok = false;
+                    t_evaluating = true;
                     auto val = rt.evaluate_expression("1 + 1", ok, true);
+                    t_evaluating = false;
                     rs->o.ctl_res[i] = ok ? 0 : 1;
                     rs->o.eval_values += val.to_string_sqf() + ";";
                 }
@@ -203,6 +206,13 @@ namespace vd
         // liveness probe: documented way back to empty, then a fresh script must run to completion
         auto st = rt.runtime_state();
         if (st == runtime::state::halted || st == runtime::state::halted_error) rt.execute(runtime::action::abort);
+        if (rt.context_begin() != rt.context_end())
+        {   // the executor's start was refused (eg. an evaluation held the executor's place): the script is still loaded and
+            // not the probe's business - let it run (or fail) and discard what is left
+            rt.execute(runtime::action::start);
+            st = rt.runtime_state();
+            if (st == runtime::state::halted || st == runtime::state::halted_error) rt.execute(runtime::action::abort);
+        }
         size_t log0 = g_log.size();
         auto set2 = rt.parser_sqf().parse(rt, "diag_log \"alive\"", pi);
         auto c2 = rt.context_create().lock();
@@ -261,14 +271,18 @@ namespace vd
             for (size_t i = 0; i < pts.size(); i++)
             {
                 bool preempt = pts[i].prev_enabled && !pts[i].forced && pts[i].chosen != 0;
-                pre[i + 1] = pre[i] + (preempt ? 1 : 0);
+                // fairness: a polling thread has to yield; letting it poll again although another thread could run is a
+                // deviation that is paid for like a preemption (otherwise every poll iteration is a free branch)
+                bool unfair = pts[i].forced && pts[i].prev_enabled && pts[i].enabled[pts[i].chosen] == pts[i].prev && pts[i].enabled.size() > 1;
+                pre[i + 1] = pre[i] + ((preempt || unfair) ? 1 : 0);
             }
             for (size_t i = prefix.size(); i < pts.size(); i++)
             {
                 for (int alt = 1; alt < (int)pts[i].enabled.size(); alt++)
                 {
                     bool is_pre = pts[i].prev_enabled && !pts[i].forced;
-                    int cost = pre[i] + (is_pre ? 1 : 0);
+                    bool is_unfair = pts[i].forced && pts[i].prev_enabled && pts[i].enabled[alt] == pts[i].prev;
+                    int cost = pre[i] + ((is_pre || is_unfair) ? 1 : 0);
                     if (cost > bound) continue;
                     std::vector<int> np;
                     for (size_t j = 0; j < i; j++) np.push_back(pts[j].chosen);
@@ -390,6 +404,19 @@ namespace vd
             for (size_t i = 0; i < req["controller"].size(); i++) ex.ctl.push_back(req["controller"][i].str());
             ex.bound = (int)req["bound"].i64(2);
             ex.max_exec = req["max_executions"].i64(100000);
+            if (req.has("schedule"))
+            {   // replay of one recorded schedule (digits = choice at each point), with the point tags for explanation
+                std::vector<int> pre; for (char ch : req["schedule"].str()) pre.push_back(ch - '0');
+                std::vector<sched::pt> pp; bool dd = false;
+                obs o = run_control(ex.script, ex.ctl, pre, pp, dd, true);
+                verif::g_hooks.point = nullptr; verif::g_hooks.on_event = nullptr;
+                res.set("key", o.key()); res.set("divergence", dd);
+                auto arr = js::val::array();
+                for (auto& q : pp) { auto e = js::val::array(); e.push((long long)q.prev); e.push(std::string(q.at)); e.push((long long)q.enabled[q.chosen]); arr.push(e); }
+                res.set("points", arr);
+                ex.judge(o, pp); res.set("violations", ex.violations);
+                return res;
+            }
             // replay check: the same (empty) schedule twice must give identical observations
             std::vector<sched::pt> p1, p2; bool d1 = false, d2 = false;
             obs a = run_control(ex.script, ex.ctl, {}, p1, d1, true);
